@@ -149,16 +149,33 @@ Definition len_ok {A} (lo : nat) (hi : option nat) (l : list A) : bool :=
   (lo <=? List.length l)%nat && match hi with Some h => (List.length l <=? h)%nat | None => true end.
 
 (* ------------------------------------------------------------------ validators (try_from) *)
-(* 0: ReferenceTime — clock_type "monotaonic" (variant 1) requires epoch == Unknow (variant 0);
-      regs = [clock_type; epoch; wall_clock_time] *)
+(* 0, 1: ReferenceTime — clock_type "monotaonic" (variant 1) requires epoch == Unknow (variant 0);
+         regs = [clock_type; epoch; wall_clock_time].
+   The two numbers differ in what the public BUILDER of the type does (`build_norm` below):
+   0 = the builder stores the epoch it was given / its default (the shape before the repair of F52),
+   1 = the builder stores Unknow whenever the clock type is monotonic (derive_builder `field(build = ..)`). *)
+Definition reftime_ok (v : value) : bool :=
+  match v with
+  | VStruct (VEnum 1 _ :: VEnum (S _) _ :: _) _ _ => false
+  | _ => true
+  end.
+
 Definition refine_pred (p : N) (v : value) : bool :=
   match p with
-  | 0%N =>
-      match v with
-      | VStruct (VEnum 1 _ :: VEnum (S _) _ :: _) _ _ => false
-      | _ => true
-      end
+  | 0%N => reftime_ok v
+  | 1%N => reftime_ok v
   | _ => true
+  end.
+
+(* what the builder of a validated type does to the field values it is given *)
+Definition build_norm (p : N) (v : value) : value :=
+  match p with
+  | 1%N =>
+      match v with
+      | VStruct (VEnum 1 c :: VEnum (S _) _ :: r) f e => VStruct (VEnum 1 c :: VEnum 0 VUnit :: r) f e
+      | _ => v
+      end
+  | _ => v
   end.
 
 (* ------------------------------------------------------------------ ser *)
@@ -234,6 +251,46 @@ with ser_shape (sh : vshape) (p : value) {struct sh} : json :=
   | ShUnit => JNull
   | ShNew s => ser s p
   | ShStruct fs => match p with VStruct lr _ _ => JObj (ser_fields fs lr) | _ => JNull end
+  end.
+
+(* ------------------------------------------------------------------ build *)
+(* the value a type's public builders produce from the field values handed to them, inside out:
+   the identity except at validated types whose builder normalises (build_norm) *)
+Fixpoint build (s : schema) (v : value) {struct s} : value :=
+  match s with
+  | SOpt s' => match v with VSome v' => VSome (build s' v') | _ => v end
+  | SSeq s' => match v with VSeq l => VSeq (map (build s') l) | _ => v end
+  | SArr _ s' => match v with VSeq l => VSeq (map (build s') l) | _ => v end
+  | SStruct regs flats _ =>
+      match v with
+      | VStruct lr lf ex => VStruct (build_fields regs lr) (build_flats flats lf) ex
+      | _ => v
+      end
+  | SEnum _ vs => match v with VEnum i p => VEnum i (build_variants vs i p) | _ => v end
+  | SRefine p s' => build_norm p (build s' v)
+  | SNamed _ s' => build s' v
+  | _ => v
+  end
+with build_fields (fs : fields) (l : list value) {struct fs} : list value :=
+  match fs with
+  | FNil => l
+  | FCons _ _ _ s r => match l with v :: l' => build s v :: build_fields r l' | [] => [] end
+  end
+with build_flats (fl : flist) (l : list value) {struct fl} : list value :=
+  match fl with
+  | FLNil => l
+  | FLCons s r => match l with v :: l' => build s v :: build_flats r l' | [] => [] end
+  end
+with build_variants (vs : variants) (i : nat) (p : value) {struct vs} : value :=
+  match vs with
+  | VNil => p
+  | VCons _ _ sh r => match i with O => build_shape sh p | S i' => build_variants r i' p end
+  end
+with build_shape (sh : vshape) (p : value) {struct sh} : value :=
+  match sh with
+  | ShUnit => p
+  | ShNew s => build s p
+  | ShStruct fs => match p with VStruct lr lf ex => VStruct (build_fields fs lr) lf ex | _ => p end
   end.
 
 (* ------------------------------------------------------------------ de *)
@@ -565,6 +622,53 @@ with wf_shape (sh : vshape) : bool :=
   | ShUnit => true
   | ShNew s => wf s
   | ShStruct fs => wf_fields fs && nodupb (reg_keys fs)
+  end.
+
+(* every skipped field (at any depth) comes back from its missing-value: the side condition
+   `skip_ok || negb skipped` of conformsb then holds for every value of the field *)
+Fixpoint skips_ok (s : schema) : bool :=
+  match s with
+  | SOpt s' | SSeq s' | SArr _ s' | SRefine _ s' | SNamed _ s' => skips_ok s'
+  | SStruct regs flats _ => skips_ok_fields regs && skips_ok_flats flats
+  | SEnum _ vs => skips_ok_variants vs
+  | _ => true
+  end
+with skips_ok_fields (fs : fields) : bool :=
+  match fs with
+  | FNil => true
+  | FCons _ sk d s r => skip_ok sk d s && skips_ok s && skips_ok_fields r
+  end
+with skips_ok_flats (fl : flist) : bool :=
+  match fl with FLNil => true | FLCons s r => skips_ok s && skips_ok_flats r end
+with skips_ok_variants (vs : variants) : bool :=
+  match vs with
+  | VNil => true
+  | VCons _ _ sh r =>
+      (match sh with ShUnit => true | ShNew s => skips_ok s | ShStruct fs => skips_ok_fields fs end)
+      && skips_ok_variants r
+  end.
+
+(* the same struct schema with the missing-value of field `key` removed (a regression of F50) *)
+Fixpoint undefault_fields (key : str) (fs : fields) : fields :=
+  match fs with
+  | FNil => FNil
+  | FCons k' sk d s r => FCons k' sk (if str_eqb key k' then None else d) s (undefault_fields key r)
+  end.
+
+Fixpoint undefault (key : str) (s : schema) : schema :=
+  match s with
+  | SNamed n s' => SNamed n (undefault key s')
+  | SRefine p s' => SRefine p (undefault key s')
+  | SStruct regs flats any => SStruct (undefault_fields key regs) flats any
+  | _ => s
+  end.
+
+(* the same validated type with another validator / builder number *)
+Fixpoint with_refine (p : N) (s : schema) : schema :=
+  match s with
+  | SNamed n s' => SNamed n (with_refine p s')
+  | SRefine _ s' => SRefine p s'
+  | _ => s
   end.
 
 (* ------------------------------------------------------------------ diagnostics (per named type, shallow) *)
